@@ -1,8 +1,10 @@
 ----------------------------- MODULE L4Socks5Trace -----------------------------
 EXTENDS L4Socks5, Json, TLCExt
 Traces == ndJsonDeserialize("socks_traces.ndjson")
-Judge(t) == IF SocksOK(t.cfg, t.sc, t.served, t.outbound) THEN TRUE
-            ELSE PrintT(<<"VBAD", ToJson([id |-> t.id, clauses |-> {"K1 the handler executed a request it must refuse (command not enabled, or client not authenticated with a configured credential)"}])>>)
+Clauses(t) == (IF SocksOK(t.cfg, t.sc, t.served, t.outbound) THEN {}
+               ELSE {"K1 the handler executed a request it must refuse (command not enabled, or client not authenticated with a configured credential)"})
+              \cup (IF t.panic = "" THEN {} ELSE {"K0 the handler panicked on the client's bytes"})
+Judge(t) == IF Clauses(t) = {} THEN TRUE ELSE PrintT(<<"VBAD", ToJson([id |-> t.id, clauses |-> Clauses(t)])>>)
 VARIABLE k
 TInit == k = 0
 TNext == k < Len(Traces) /\ Judge(Traces[k + 1]) /\ k' = k + 1
